@@ -298,4 +298,30 @@ def stringDecode (input : Octets) : Nat × Octets :=
 /-- `count = ((Int32)16 + (c & 15)) << ((c >> 4) + EXPBIAS)` with `EXPBIAS = 6` -/
 def s2kCountDecode (c : Nat) : Nat := (16 + (c &&& 15)) <<< ((c >>> 4) + 6)
 
+/-- the octets one hash context of `S2KCompute` is fed (`HashCompute` with `nzp` zero octets of
+    preload): the whole `salt ‖ passphrase` once, unconditionally, then further (possibly partial)
+    copies until `cnt` octets of data have been hashed.  Salted S2K is the case `cnt = 0`. -/
+def s2kCycle (input : List Nat) : Nat → Nat → List Nat
+  | 0, _ => []
+  | n + 1, i => input.getD (i % input.length) 0 :: s2kCycle input n (i + 1)
+
+def s2kFeed (input : List Nat) (cnt : Nat) : List Nat :=
+  input ++ s2kCycle input (cnt - input.length) input.length
+
+def s2kStream (nzp : Nat) (input : List Nat) (cnt : Nat) : List Nat :=
+  List.replicate nzp 0 ++ s2kFeed input cnt
+
+/-- `S2KCompute`: `sklen / hashlen + 1` contexts, context `j` preloaded with `j` zero octets; the
+    digests are concatenated, first leftmost, and cut to `sklen` octets.  The digest function is a
+    parameter (libgcrypt).  A salt that is not 8 octets long, or an unknown hash algorithm
+    (`hashlen = 0`), leaves the output empty. -/
+def s2kStreams (hashlen sklen : Nat) (salt pw : List Nat) (iterated : Bool) (c : Nat) : List (List Nat) :=
+  if salt.length ≠ 8 ∨ hashlen = 0 then []
+  else (List.range (sklen / hashlen + 1)).map fun j =>
+    s2kStream j (salt ++ pw) (if iterated then s2kCountDecode c else 0)
+
+def s2kKey (H : List Nat → List Nat) (hashlen sklen : Nat) (salt pw : List Nat) (iterated : Bool)
+    (c : Nat) : List Nat :=
+  ((s2kStreams hashlen sklen salt pw iterated c).map H).flatten.take sklen
+
 end Tmcg.Pgp
